@@ -374,7 +374,16 @@ def check_no_broadcast_defaults(ctx, rule: str) -> None:
                 val[k] = False
                 val[src(ast.Compare(e.left, [ast.NotIn()], e.comparators))] = True
             elif ("GraphNode" in txt and "isinstance" in txt) or "map_config" in txt or "_map_over" in txt:
-                val[src(a)] = True
+                if isinstance(e, ast.BoolOp):
+                    # evaluate the conjunction from its parts: only the node-kind / mapping parts are given
+                    for part in e.values:
+                        pt = src(part)
+                        if ("GraphNode" in pt and "isinstance" in pt) or "map_config" in pt or "_map_over" in pt:
+                            val[pt] = True
+                            if isinstance(part, ast.Compare) and isinstance(part.ops[0], ast.IsNot):
+                                val[src(ast.Compare(part.left, [ast.Is()], part.comparators))] = False
+                else:
+                    val[src(a)] = True
     live = reachable(cfg.entry, specialize(val, cfg)) if val else set(cfg.nodes)
     # the same for a nested graph node that is *not* mapping: the copy it would be handed becomes a provided value
     # of the nested run and is broadcast by a mapping node further down
